@@ -142,3 +142,213 @@ class ClientRig:
             raise Violation(prop + '/malformed-frame', why.split(' at ')[0][:60],
                             'txdbus wrote a frame the reference decoder rejects: %s (%r...)'
                             % (why, frame[:48]))
+
+
+# =======================================================================================
+# real Bus with attached clients
+from txdbus import bus as t_bus  # noqa: E402
+from .refpeer import RefSaslClient  # noqa: E402
+from .seams import KNOWN_AT_IMPORT  # noqa: E402
+
+
+class BusFactory:
+    def __init__(self, bus):
+        self.bus = bus
+
+
+class RefBusPeer(RefSaslClient):
+    """A foreign (non-txdbus) bus client: ANONYMOUS handshake, then reference-coded
+    messages.  Says Hello by itself."""
+
+    def __init__(self, name, mech='ANONYMOUS'):
+        RefSaslClient.__init__(self, mech)
+        self.name = name
+        self.splitter = rc.FrameSplitter()
+        self.messages = []           # decoded messages received
+        self.bad = []
+        self.serial = 1 + (hash(name) % 1000 if False else 0)
+        self.unique = None
+        self.hello_serial = None
+        self.on_message = None
+
+    def next_serial(self):
+        self.serial += 1
+        return self.serial
+
+    def line(self, line):
+        RefSaslClient.line(self, line)
+        if self.begun and self.hello_serial is None:
+            m = rc.Msg(rc.METHOD_CALL, self.next_serial(),
+                       {rc.F_PATH: '/org/freedesktop/DBus', rc.F_INTERFACE: 'org.freedesktop.DBus',
+                        rc.F_MEMBER: 'Hello', rc.F_DESTINATION: 'org.freedesktop.DBus'})
+            self.hello_serial = m.serial
+            self.transport.write(m.encode())
+
+    def dataReceived(self, data):
+        if not self.begun:
+            RefSaslClient.dataReceived(self, data)
+            if self.begun and self.buf:
+                rest, self.buf = self.buf, b''
+                self._binary(rest)
+            return
+        self.received += data
+        self._binary(data)
+
+    def _binary(self, data):
+        for frame in self.splitter.feed(data):
+            try:
+                m = rc.decode_message(frame)
+            except rc.CodecError as e:
+                self.bad.append((frame, str(e)))
+                continue
+            if (m.mtype == rc.METHOD_RETURN and self.unique is None
+                    and m.fields.get(rc.F_REPLY_SERIAL) == self.hello_serial):
+                self.unique = m.body[0] if m.body else None
+            self.messages.append(m)
+            if self.on_message:
+                self.on_message(m)
+
+    def send(self, m):
+        if m.raw is None:
+            m.encode()
+        self.transport.write(m.raw)
+        return m
+
+    def bus_call(self, member, sig='', body=(), flags=0):
+        return self.send(rc.Msg(rc.METHOD_CALL, self.next_serial(),
+                                {rc.F_PATH: '/org/freedesktop/DBus',
+                                 rc.F_INTERFACE: 'org.freedesktop.DBus', rc.F_MEMBER: member,
+                                 rc.F_DESTINATION: 'org.freedesktop.DBus'}, sig, body, flags=flags))
+
+
+class BusRig:
+    """real txdbus Bus + BusProtocol per connection; clients are real DBusClientConnections
+    (each on its own Node) or RefBusPeers."""
+
+    def __init__(self, ctx, creds=True, prop='BUS'):
+        self.ctx = ctx
+        self.prop = prop
+        self.sim = ctx.sim
+        ds = ctx.ds
+        ctx.seams.home()
+        ctx.seams.set_linux(bool(creds))
+        self.creds = creds
+        self.node = Node('bus', serial_start=1 + ds.choose(2**31), known=dict(KNOWN_AT_IMPORT))
+        self.bus = self.sim.call(self.node, t_bus.Bus)
+        self.factory = BusFactory(self.bus)
+        self.clients = []        # dicts
+        self.n = 0
+
+    def _server_proto(self):
+        p = t_bus.BusProtocol()
+        p.factory = self.factory
+        return p
+
+    def add_client(self, unix=None, calm=True):
+        """a real DBusClientConnection"""
+        ds = self.ctx.ds
+        self.n += 1
+        name = 'c%d' % self.n
+        node = Node(name, serial_start=1 + ds.choose(2**32 - 10**6), known=dict(KNOWN_AT_IMPORT))
+        factory = t_client.DBusClientFactory()
+        obs = Obs(self.sim, name + '.connect').watch(factory.getConnection())
+        proto = self.sim.call(node, factory.buildProtocol, None)
+        if unix is None:
+            unix = ds.flag(0.5)
+        conn = net.Connection(self.sim, name, node, self.node, unix=unix,
+                              creds=(4000 + self.n, 1000, 1000) if self.creds else None)
+        sp = self._server_proto()
+        rec = {'name': name, 'node': node, 'proto': proto, 'conn': conn, 'server': sp,
+               'connected': obs, 'kind': 'real', 'sent': [], 'rcvd': [], 'bad': []}
+        self._tap(rec)
+        conn.attach(proto, sp, a_first=False)
+        self.clients.append(rec)
+        if calm:
+            self.calm()
+            if not (obs.fired and obs.fired[0][0] == 'ok'):
+                raise Violation(self.prop + '/attach', 'client cannot attach',
+                                'real client could not attach to the built-in bus: %r; exceptions %r'
+                                % (obs.fired, [(w, x, repr(e)) for w, x, e in self.sim.exceptions]))
+        return rec
+
+    def add_peer(self, unix=False, calm=True):
+        self.n += 1
+        name = 'r%d' % self.n
+        peer = RefBusPeer(name)
+        conn = net.Connection(self.sim, name, None, self.node, unix=unix,
+                              creds=(4000 + self.n, 1000, 1000) if self.creds else None)
+        sp = self._server_proto()
+        rec = {'name': name, 'node': None, 'proto': peer, 'conn': conn, 'server': sp,
+               'kind': 'ref', 'sent': [], 'rcvd': [], 'bad': []}
+        self._tap(rec)
+        conn.attach(peer, sp, a_first=False)
+        self.clients.append(rec)
+        if calm:
+            self.calm()
+            if peer.unique is None:
+                raise Violation(self.prop + '/attach', 'reference peer cannot attach',
+                                'reference peer could not attach: lines %r, exceptions %r'
+                                % (peer.lines, [(w, x, repr(e)) for w, x, e in self.sim.exceptions]))
+        return rec
+
+    def _tap(self, rec):
+        """reference-decode both directions of the link"""
+        up, down = rc.FrameSplitter(), rc.FrameSplitter()
+        st = {'up_bin': False, 'down_bin': False}
+
+        def tap_up(data):
+            if not st['up_bin']:
+                i = data.find(b'BEGIN\r\n')
+                if i < 0:
+                    return
+                st['up_bin'] = True
+                data = data[i + 7:]
+            for fr in up.feed(data):
+                try:
+                    rec['sent'].append(rc.decode_message(fr))
+                except rc.CodecError as e:
+                    rec['bad'].append(('up', str(e), fr))
+
+        def tap_down(data):
+            if not st['down_bin']:
+                if data[:1] in (b'l', b'B') and st['up_bin']:
+                    st['down_bin'] = True
+                else:
+                    return
+            for fr in down.feed(data):
+                try:
+                    rec['rcvd'].append(rc.decode_message(fr))
+                except rc.CodecError as e:
+                    rec['bad'].append(('down', str(e), fr))
+        rec['conn'].a.taps.append(tap_up)
+        rec['conn'].b.taps.append(tap_down)
+
+    def unique(self, rec):
+        if rec['kind'] == 'real':
+            return rec['proto'].busName
+        return rec['proto'].unique
+
+    def calm(self, limit=400):
+        n = 0
+        while n < limit:
+            pipes = net.deliverable(self.sim)
+            if not pipes:
+                los = net.losable(self.sim)
+                if not los:
+                    return
+                los[0].do_lose()
+            else:
+                net.deliver(self.sim, pipes[0], len(pipes[0].buf))
+            n += 1
+        raise HarnessError('bus calm() did not quiesce')
+
+    def call(self, rec, fn, *a, **kw):
+        return self.sim.call(rec['node'], fn, *a, **kw)
+
+    def check_wire(self, prop):
+        for rec in self.clients:
+            if rec['bad']:
+                d, why, fr = rec['bad'][0]
+                raise Violation(prop + '/malformed-frame', '%s %s' % (d, why.split(' at ')[0][:50]),
+                                'link %s (%s): frame rejected by the reference decoder: %s (%r...)'
+                                % (rec['name'], d, why, fr[:60]))
